@@ -605,9 +605,19 @@ with hcall (fuel : nat) (cid : Z) (call : string) (args : list arg) (w : world) 
     | _ => desync "h-discard-args" w
     end
   else if sym_eqb call "writeto" then
-    (* WriteTo a writer that accepts everything *)
-    hr [ABytes (c_in c ++ c_buf c); AInt total; ASym "nil"]
-       (wsetc w cid (c_set_buf (c_set_in c []) []))
+    (* WriteTo a writer that accepts at most `lim` more bytes in total (lim < 0: everything) and
+       reports an error when it cannot take a whole Write *)
+    let lim := match args with AInt n :: _ => n | _ => -1 end in
+    if (lim <? 0) || (total <=? lim) then
+      hr [ABytes (c_in c ++ c_buf c); AInt total; ASym "nil"]
+         (wsetc w cid (c_set_buf (c_set_in c []) []))
+    else if lim <? zlen (c_in c) then
+      hr [ABytes (ztake lim (c_in c)); AInt lim; ASym "err"]
+         (wsetc w cid (c_set_in c (zdrop lim (c_in c))))
+    else
+      let b := lim - zlen (c_in c) in
+      hr [ABytes (c_in c ++ ztake b (c_buf c)); AInt lim; ASym "err"]
+         (wsetc w cid (c_set_buf (c_set_in c []) (zdrop b (c_buf c))))
   else if sym_eqb call "inbuf" then hr [AInt total] w
   else if sym_eqb call "outbuf" then hr [AInt (zlen (c_out c))] w
   else if sym_eqb call "write" then
